@@ -189,7 +189,8 @@ def contract_driver(program, c, findings=()):
     refs_f = [program.func(k) for k in _r]
     view = program.func(c.view) if c.view else None
     ensures = [(n, program.func(k)) for n, k in c.ensures]
-    order = list(c.state.keys())
+    allkeys = list(c.state.keys())
+    order = [k for k in allkeys if k not in c.ghost]
     fnd = [(f, program.func(f.when)) for f in findings]
 
     def driver(it):
@@ -197,9 +198,11 @@ def contract_driver(program, c, findings=()):
         ctx.loop_specs = {}
         shared = {}
         vals = {}
-        for k in order:
+        for k in allkeys:
             vals[k] = build_sym(it, c.state[k], k, shared)
         env = dict(vals)
+        for sk in c.setup:
+            call_by_name(it, program.func(sk), env)
         for r in requires:
             ctx.assume(ops.truthy(it, call_by_name(it, r, env)))
         # known findings: the listed failing class is excused (assume not when)
